@@ -94,10 +94,68 @@ pub mod host {
     include!("sliced/broadcast.rs");
     include!("sliced/sync.rs");
     include!("sliced/members.rs");
-    include!("sliced/uni.rs");
     include!("sliced/peer.rs");
     include!("sliced/handlers.rs");
     include!("sliced/bcast.rs");
+
+    /// the per-stream frame loop of the uni handler, hosted with its own imports: frames arrive
+    /// already split (LengthDelimitedCodec is environment) and `read_from_buffer` hands back the
+    /// payload the frame carries (the real speedy decode of these frames is checked by the
+    /// *_frame_cluster_id_* harnesses)
+    pub mod unistream {
+        use super::{BroadcastV1, ChangeSource, ChangeV1, ClusterId, UniPayload, UniPayloadV1};
+        use venv::avec as vec;
+        use venv::collections::Vec;
+        use venv::{counter, error, trace};
+        #[derive(Clone, Copy)]
+        pub struct Frame {
+            pub decodes: bool,
+            pub tag: u8,
+            pub cluster: u16,
+        }
+        impl Frame {
+            pub fn len(&self) -> usize {
+                7
+            }
+        }
+        #[derive(Debug)]
+        pub struct DecodeError;
+        impl core::fmt::Display for DecodeError {
+            fn fmt(&self, _f: &mut core::fmt::Formatter<'_>) -> core::fmt::Result {
+                Ok(())
+            }
+        }
+        pub trait FrameDecode: Sized {
+            fn read_from_buffer(b: &Frame) -> Result<Self, DecodeError>;
+        }
+        impl FrameDecode for UniPayload {
+            fn read_from_buffer(b: &Frame) -> Result<Self, DecodeError> {
+                if b.decodes {
+                    Ok(UniPayload::V1 { data: UniPayloadV1::Broadcast(BroadcastV1::Change(ChangeV1 { tag: b.tag })), cluster_id: ClusterId(b.cluster) })
+                } else {
+                    Err(DecodeError)
+                }
+            }
+        }
+        /// FramedRead<RecvStream, LengthDelimitedCodec>: a finite sequence of frames / io errors
+        pub struct Framed {
+            pub items: [Option<Result<Frame, DecodeError>>; 3],
+            pub next: usize,
+        }
+        pub struct StreamExt;
+        impl StreamExt {
+            pub async fn next(f: &mut Framed) -> Option<Result<Frame, DecodeError>> {
+                if f.next < 3 {
+                    let i = f.next;
+                    f.next += 1;
+                    f.items[i].take()
+                } else {
+                    None
+                }
+            }
+        }
+        include!("sliced/unistream.rs");
+    }
 
     #[cfg(kani)]
     mod proofs {
